@@ -127,15 +127,10 @@ class Check:
         txt = open(path).read()
         names = re.findall(r"^(?:Theorem|Example|Lemma)\s+(\w+)", txt, re.M)
         self.theorems = names
-        # forbidden words anywhere in the development
-        bad = subprocess.run(
-            ["grep", "-rnE", r"\b(Admitted|admit|Axiom|Parameter|Conjecture|Abort All)\b|Unset Guard|bypass_check|type-in-type|Admit Obligations",
-             os.path.join(COQ, "theories")], capture_output=True, text=True).stdout.strip()
-        bad = "\n".join(l for l in bad.splitlines() if "(*" not in l.split(":", 2)[-1][:4])
-        if bad:
-            self.obligations.append(("no-admits-or-axioms", False, bad[:500]))
-        else:
-            self.obligations.append(("no-admits-or-axioms", True, ""))
+        # forbidden constructs anywhere in the development (Axiom/Parameter/Admitted/..., Variable or Hypothesis
+        # outside a Section, switched-off kernel checks): tools/scan_coq.py
+        sc = subprocess.run([sys.executable, os.path.join(VERIF, "tools", "scan_coq.py")], capture_output=True, text=True)
+        self.obligations.append(("no-admits-or-axioms", sc.returncode == 0, sc.stdout[:500]))
         # Print Assumptions: re-run coqc on the properties file to capture the output
         logical = "PsdV.Properties." + propfile[:-2]
         p = subprocess.run(["coqc", "-Q", os.path.join(COQ, "theories"), "PsdV", "-o", os.path.join(self.dir, propfile[:-2] + ".vo"), path],
